@@ -18,7 +18,7 @@ ASSUMPTIONS = ["a watchdog timeout is inconclusive, not a violation",
 CLASSES = gen.HOSTILE_CLASSES
 FLOORS = {
     "quick": dict({"api:get_citations": 20000, "api:resolve_citations": 10000, "api:annotate_citations": 20000,
-                   "calls:ref": 300, "citations": 20000, "component_hostile_docs": 600, "db_strings_with_year": 4000}, **{"hostile:" + c: 100 for c in CLASSES}),
+                   "calls:ref": 300, "citations": 20000, "component_hostile_docs": 600, "all_kinds_docs": 300, "db_strings_with_year": 4000}, **{"hostile:" + c: 100 for c in CLASSES}),
     "thorough": dict({"api:get_citations": 1000000, "api:resolve_citations": 500000,
                       "api:annotate_citations": 1000000, "calls:ref": 10000},
                      **{"hostile:" + c: 5000 for c in CLASSES}),
@@ -69,6 +69,20 @@ def make_text(rng, rec):
                              f". {gen.ref_name(rng)}, {gen.hostile_member(rng, short=True)}",
                              f". See {gen.ref_name(rng)} at {odd()}", ". Ibid."])
         return s + rng.choice([".", "", " and more."])
+    if r < 0.33:
+        # every kind in ONE document, in random order, with references by the names written in it: what one
+        # stage stores for one kind (statute, journal, placeholder page) meets what a later stage reads for
+        # another (reference, id., supra)
+        rec.count("all_kinds_docs")
+        P, D = gen.name(rng), gen.name(rng)
+        pieces = [f"{P} v. {D}, {gen.num(rng)} {gen.rep(rng)} {gen.num(rng)} ({gen.yearish(rng)})",
+                  rng.choice(["42 U.S.C. § 1983", "Mass. Gen. Laws ch. 1, § 2 (West 1999)", "29 C.F.R. § 1910.1200(a)(2)"]),
+                  f"{gen.num(rng)} {rng.choice(['Minn. L. Rev.', 'Harv. L. Rev.', 'Yale L.J.'])} {rng.choice([gen.num(rng), '___'])} ({gen.yearish(rng)})",
+                  f"In {rng.choice([P, D])} at {gen.num(rng)}, the court", f"{rng.choice([P, D])}, supra, at {gen.num(rng)}",
+                  f"Id. at {gen.num(rng)}", f"{rng.choice([P, D])}, {gen.num(rng)} {gen.rep(rng)} at {gen.num(rng)}",
+                  f"{gen.name(rng)} v. {gen.name(rng)}, {gen.num(rng)} {gen.rep(rng)} ___ ({gen.yearish(rng)})", "§ 12"]
+        rng.shuffle(pieces)
+        return rng.choice([". ", "; ", ".\n"]).join(pieces[:rng.randint(4, len(pieces))]) + "."
     base = gen.dense_doc(rng, hostile=0, rec=rec, maxfrag=5)
     # splice every class with equal probability
     k = rng.randint(1, 5)
